@@ -741,7 +741,7 @@ class MaterialIndexer(Indexer):
             for phase, ID_data in phase_data.items():
                 IDs, data = zip(*ID_data)
                 self[phase, IDs] = data
-            if units: self.set_data(data, units)
+            if units: self.set_data(self.data, units)
         return self
     
     def reset_chemicals(self, chemicals, container=None):
